@@ -75,13 +75,16 @@ def run_c07(t, tier, res):
     if opts["coverage"] == 0.0:
         opts["coverage"] = 0.5
     scratch.fresh_disk()
+    # rule names are free text: brackets, stars and question marks are legal in a directory name
+    rule = t.choice(["R", "R", "R", "leak[2024]", "r[a-z]x", "st*r", "wh?t", "top 100", "R.v2"])
     if t.chance(1, 3):
         # the rule name was trained before from a different list (stale files in the directory)
         old, oopts = trainer.gen_list(t, {"encoding": enc, "nonascii": True, "sites": True})
         oopts["encoding"] = enc
         if oopts["coverage"] == 0.0:
             oopts["coverage"] = 0.5
-        tr_old = trainer.train(old, oopts, uuid_seed=5, filename="old.txt")
+        oopts["save_sensitive"] = t.chance(1, 2)
+        tr_old = trainer.train(old, oopts, uuid_seed=5, filename="old.txt", rule=rule)
         res.faults["retrain_over_stale_ruleset"] += 1 if tr_old.ok else 0
     raw = None
     if t.chance(1, 2):
@@ -93,10 +96,10 @@ def run_c07(t, tier, res):
                 lines.append(pw.encode(enc, "surrogateescape"))
         raw = b"\n".join(lines) + b"\n"
         res.stats["hex_route_lists"] += 1
-    tr = trainer.train(pws, opts, raw=raw)
+    tr = trainer.train(pws, opts, raw=raw, rule=rule)
     if flavour.get("large"):
         res.stats["large_lists_trained" if tr.ok else "large_lists_not_trained"] += 1
-    res.sample = {"passwords": pws[:14], "n": len(pws), "opts": opts, "some_lines_as_hex": raw is not None}
+    res.sample = {"passwords": pws[:14], "n": len(pws), "opts": opts, "some_lines_as_hex": raw is not None, "rule_name": rule}
     if not tr.ok:
         res.rejected = "trainer_failed"
         return
